@@ -46,6 +46,8 @@ def handle (st : DState) (line : String) : DState × String :=
             | [n] => (st, showIntList (Py.rangeInt n))
             | _ => (st, "bad-op")
           else match xs0 with
+          | [a, b, c] =>
+            if op == "pack16" then (st, showExcept showIntList (Py.packI16x3 a b c)) else (st, "bad-op")
           | [a, b] =>
             let r : Except Err Int :=
               if op == "land" then .ok (Py.land a b) else if op == "lor" then .ok (Py.lor a b)
